@@ -248,7 +248,7 @@ def run(ctx):
     names = {v: k for k, v in ids.items()}
     adt = {p[0]: list(p[1]) for p in pv[2]}
     adt_tbl = sorted(adt.items())
-    n = ctx.n(260, 12000)
+    n = ctx.n(260, 2000)
     g = Gen(r, ids, depth=ctx.n(3, 4))
     g0 = Gen(r, ids, depth=ctx.n(3, 4), unknowns=False)
     pairs = [(g0 if i % 2 == 0 else g).pair() for i in range(n)]
@@ -341,10 +341,20 @@ def run(ctx):
     for (a, b) in pairs[:3]:
         ctx.sample({"goal": goal_text(a, b, names)})
     # returned constraints vs the specification, inside Coq
-    bad = core.coq_mismatches(ctx.work, "spec", IMPORTS, fn="c29_spec", eqb="c29_eqb",
-                              in_ty="list (N * list variance) * tm * tm * list tm", out_ty="list (tm * tm)",
-                              pairs=list(zip(spec_inputs, spec_expected)), shard=ctx.n(150, 600))
+    # the solvers and relate mostly return the same requirement set for a pair: evaluate each distinct (input, set) once
+    uniq, where = {}, []
+    for inp, exp in zip(spec_inputs, spec_expected):
+        key = sx.to_sexp(inp) + "|" + sx.to_sexp(exp)
+        where.append(uniq.setdefault(key, len(uniq)))
+    upairs = [None] * len(uniq)
+    for (inp, exp), k in zip(zip(spec_inputs, spec_expected), where):
+        upairs[k] = (inp, exp)
+    ubad = set(core.coq_mismatches(ctx.work, "spec", IMPORTS, fn="c29_spec", eqb="c29_eqb",
+                                   in_ty="list (N * list variance) * tm * tm * list tm", out_ty="list (tm * tm)",
+                                   pairs=upairs, shard=max(200, (len(upairs) + core.NCPU - 1) // core.NCPU)))
+    bad = [j for j, k in enumerate(where) if k in ubad]
     ctx.cov["spec_mismatches"] = len(bad)
+    ctx.cov["spec_comparisons"] = {"total": len(where), "distinct": len(upairs)}
     for j in bad:
         a, b, who, reqs, ext, txt = spec_meta[j]
         mine = closure(py_vc("Covariant", a, b, adt), ext)
